@@ -153,6 +153,8 @@ def keys_to_dist(K, s: int, ord_) -> np.ndarray:
 
 def radius_key(radius: float, s: int, ord_) -> int:
     """largest integer key T with  key <= T  <=>  distance <= radius   (radius >= 0, exact)"""
+    if math.isinf(radius):
+        return (1 << 4000) if radius > 0 else -1
     fr = Fraction(radius)
     if fr < 0:
         return -1
